@@ -65,7 +65,7 @@ CLAIMED = {
             "trusts mon/ref/pomdp.py (expectimax on unnormalised beliefs) and mon/ref/mdp.py; slack uses k observed at run time", "§4 C08"),
     "C09": ("runtime monitoring: boundary recorder on stochastic_fsc_policy_evaluation_exact; the same function wrapped as seen from the bounded-policy-iteration module records every value table inside one train_on (monotonicity); StochasticFiniteStateController driven along all action/observation histories up to length 3 and its agent state compared with the hidden-node forward algorithm; reference cross-product solve with absorbing states terminal; source-free probe on scipy.optimize.linprog during bounded policy iteration (facts for exceptions raised by its own assertions)",
             "Held-on-K-executions over generated POMDPs, controllers, histories and learner seeds. Exploration: all-inputs / all-histories property.",
-            "trusts mon/ref/fsc.py and mon/ref/pomdp.py; known findings C09-fsc-evaluation-ignores-absorbing-states, C09-bpi-accepts-lp-solutions-at-solver-noise-level and C09-bpi-does-not-check-the-lp-solver's-status are mechanism-keyed", "§4 C09"),
+            "trusts mon/ref/fsc.py and mon/ref/pomdp.py; known findings C09-fsc-evaluation-ignores-absorbing-states, C09-bpi-accepts-lp-solutions-at-solver-noise-level, C09-bpi-does-not-check-the-lp-solver's-status and C09-bpi-improvement-step-not-monotone-at-long-horizons are mechanism-keyed", "§4 C09"),
 }
 
 PENDING_REASON = "check not built yet in this round (design in DESIGN.md §4); not claimed until its monitor exists and is silent on the unchanged tree"
